@@ -69,6 +69,7 @@ type caseData struct {
 const (
 	scopeDerefPos     = "position of a nil pointer dereference panic"
 	scopeDeferFuncVar = "deferred call of a function value held in a captured variable"
+	scopeTwoRecovered = "two or more recovered panics still active when the program ends"
 )
 
 func (prop) Drive(d *core.Driver) error {
@@ -88,6 +89,8 @@ func (prop) Drive(d *core.Driver) error {
 	r := d.Rand("nests")
 	opts := fp.NestOpts{NativeEscape: true, NoDeferFuncVar: d.InScope(scopeDeferFuncVar)}
 	skipDerefPos := d.InScope(scopeDerefPos)
+	skipTwoRecovered := d.InScope(scopeTwoRecovered)
+	scopedOut := 0
 	var nests []fp.Nest
 	var gcSrcs []string
 	for i := 0; i < nProg; i++ {
@@ -124,6 +127,10 @@ func (prop) Drive(d *core.Driver) error {
 			return fmt.Errorf("program %d: %v\n%s", i, err, n.Src)
 		}
 		outcomes[exp.Outcome]++
+		if skipTwoRecovered && recoveredEntries(exp) >= 2 {
+			scopedOut++
+			continue
+		}
 		var noPos []int
 		if skipDerefPos {
 			noPos = n.DerefLines
@@ -140,6 +147,7 @@ func (prop) Drive(d *core.Driver) error {
 	d.T.Set("template_mirrors", (nProg+2)/3)
 	d.T.Set("scenario_cases", len(sc))
 	d.T.Set("gc_outcomes", outcomes)
+	d.T.Set("programs_inside_the_scope_of_an_open_finding", scopedOut)
 	for _, i := range []int{0, 1, len(cases) - 1} {
 		if i >= 0 && i < len(cases) {
 			var cd caseData
@@ -158,6 +166,18 @@ func (prop) Drive(d *core.Driver) error {
 		os.WriteFile(path, []byte(b.String()), 0o644)
 	}
 	return nil
+}
+
+// recoveredEntries counts the panics of the reference chain that are known to be
+// recovered.
+func recoveredEntries(e gcpanic.Expected) int {
+	n := 0
+	for _, c := range e.Chain {
+		if c.Recovered && !c.RecUnknown {
+			n++
+		}
+	}
+	return n
 }
 
 // ---------------------------------------------------------------------------
